@@ -116,6 +116,8 @@ def arith(op, a, b):
     if is_concrete_num(a) and is_concrete_num(b):
         return _concrete_arith(op, a, b)
     if not (isinstance(a, (SNum,)) or is_concrete_num(a)) or not (isinstance(b, SNum) or is_concrete_num(b)):
+        if isinstance(a, Inst) or isinstance(b, Inst) or a is None or b is None:
+            raise_py('TypeError', f'unsupported operand type(s) for {op}')
         raise OutOfSubset(f'arithmetic {op} on {type(a).__name__}, {type(b).__name__}')
     if _conc_nonfinite(a) or _conc_nonfinite(b):
         return _nonfinite_arith(op, a, b)
@@ -232,6 +234,8 @@ def conj(a):
         return a.conjugate() if isinstance(a, complex) else a
     if isinstance(a, SNum):
         return _mk(a.re, None if a.im is None else -a.im, a.np)
+    if isinstance(a, Inst):
+        raise_py('TypeError', f'{a.cls.name} has no callable conjugate method')
     raise OutOfSubset('conjugate of non-number')
 
 
